@@ -105,6 +105,18 @@ def getitem_forms(cls):
                     failures.append(dict(clause='item-k-is-self[indices[k]]', case=desc, error='%s: %s' % (type(e).__name__, e)))
                     continue
                 _check_result(r, [elems[i] for i in idx], failures, 'item-k-is-self[indices[k]]', desc)
+        # every FULL-LENGTH permutation (incl. unsorted ones that start with 0 and end with len-1) and every partial injective array of length 5, 6
+        if 4 < n <= 6 or cls == 'Transforms':
+            longer = [p for k in range(5, n + 1) for p in itertools.permutations(range(n), k)] if n <= 6 else []
+            for idx in longer:
+                cases += 1
+                desc = '%s[%r]' % (tag, list(idx))
+                try:
+                    r = seq[numpy.array(idx, dtype=int)]
+                except Exception as e:
+                    failures.append(dict(clause='item-k-is-self[indices[k]]', case=desc, error='%s: %s' % (type(e).__name__, e)))
+                    continue
+                _check_result(r, [elems[i] for i in idx], failures, 'item-k-is-self[indices[k]]', desc)
         for idx in ([n], [-1], [0, n], [-1, 0], [n - 1, n + 2]):
             if n == 0 and idx in ([0, n], [-1, 0]):
                 pass
@@ -322,3 +334,9 @@ def containers(modname, cls):
         except Exception as e:
             failures.append(dict(clause='getitem-forms-agree-with-the-list', case='%s[int]' % tag, error=type(e).__name__))
     _finish(cases, failures, 'a %s.%s container operation does not deliver the documented items' % (modname, cls))
+
+
+def base_array_forms():
+    """replay helper of the unbounded contract on the integer-array branch of Transforms.__getitem__ (contracts/c11_basearr.py): the bounded enumeration
+    over the classes that defer to the base class, which includes every full-length permutation of sequences of up to 6 elements"""
+    getitem_forms('Transforms')
